@@ -220,6 +220,18 @@ func init() {
 	// influence any checked behaviour (vendored RSA keys: PEM/x509 parsing)
 	externals["github.com/gotd/td/mtproto.init#1"] = func(fr *frame, args []value) value { return nil }
 	externals["github.com/gotd/td/telegram.init#1"] = func(fr *frame, args []value) value { return nil }
+	externals["crypto/internal/constanttime.boolToUint8"] = func(fr *frame, args []value) value {
+		switch b := args[0].(type) {
+		case bool:
+			if b {
+				return uint8(1)
+			}
+			return uint8(0)
+		case sv:
+			return mkval(fr.i.ctx.Ite(b.t, fr.i.ctx.BV(1, 8), fr.i.ctx.BV(0, 8)), types.Uint8)
+		}
+		panic(unsupported("boolToUint8 argument"))
+	}
 	externals["runtime.Callers"] = func(fr *frame, args []value) value { return 0 }
 	externals["runtime.KeepAlive"] = func(fr *frame, args []value) value { return nil }
 	externals["runtime.Gosched"] = func(fr *frame, args []value) value { fr.i.yield(); return nil }
